@@ -26,23 +26,28 @@ def main():
 
         gl, gu = g(c["rl"]), g(c["ru"])
         rec = dict(c)
-        rec.update(kind="func", ok=0, vals=[0], ends_exact=0, switch_jump=0, nested_dev=0,
+        rec.update(kind="func", ok=0, vals=[0], steps=[0], ends_exact=0, switch_jump=0, nested_dev=0,
                    grad={"lo": {"req": 0, "got": 0, "want": 0, "curv": 0}, "hi": {"req": 0, "got": 0, "want": 0, "curv": 0}})
         try:
             f = eq.getSmoothMonotonicGridFunc(n, lower, upper, grad_lower=gl, grad_upper=gu)
             vals = eq.make1dGrid(n, f)
             rec["ok"] = 1
             rec["vals"] = [int(round((v - lower) / abs(D) * 1e9)) for v in vals]
+            # increments with their sign kept (a positive step smaller than the quantum of `vals' must not read as zero)
+            st = np.diff(np.asarray(vals, float)) / abs(D) * 1e9
+            rec["steps"] = [int(np.sign(x) * max(1, min(abs(round(x)), 2e9))) if x != 0 and np.isfinite(x) else 0 for x in st]
             tol = 4 * np.finfo(float).eps * max(abs(lower), abs(upper), abs(D))
             rec["ends_exact"] = 1 if abs(vals[0] - lower) <= tol and abs(vals[-1] - upper) <= tol else 0
             h = 2e-6 * n
             if gl is not None:
                 got = (f(h) - f(0.0)) / h
-                curv = (f(2 * h) - 2 * f(h) + f(0.0)) / h ** 2
+                hc = 10 * h      # second-order one-sided second difference
+                curv = (2 * f(0.0) - 5 * f(hc) + 4 * f(2 * hc) - f(3 * hc)) / hc ** 2
                 rec["grad"]["lo"] = {"req": 1, "got": int(round(got / abs(gl) * 1e6)), "want": int(round(gl / abs(gl) * 1e6)), "curv": int(round(curv / (abs(D) / n ** 2) * 1e6))}
             if gu is not None:
                 got = (f(float(n)) - f(n - h)) / h
-                curv = (f(n - 2 * h) - 2 * f(n - h) + f(float(n))) / h ** 2
+                hc = 10 * h
+                curv = (2 * f(float(n)) - 5 * f(n - hc) + 4 * f(n - 2 * hc) - f(n - 3 * hc)) / hc ** 2
                 rec["grad"]["hi"] = {"req": 1, "got": int(round(got / abs(gu) * 1e6)), "want": int(round(gu / abs(gu) * 1e6)), "curv": int(round(curv / (abs(D) / n ** 2) * 1e6))}
             # nesting: n -> 2n with the same gradients per unit x (halved per index)
             f2 = eq.getSmoothMonotonicGridFunc(2 * n, lower, upper, grad_lower=None if gl is None else gl / 2, grad_upper=None if gu is None else gu / 2)
